@@ -344,6 +344,9 @@ func (e *Engine) execInstr(f *frame, b *ssa.BasicBlock, in ssa.Instruction, st *
 		off, n := e.tupleRange(x.Tuple.Type().(*types.Tuple), x.Index)
 		v := Val{Typ: x.Type(), Terms: tv.Terms[off : off+n]}
 		e.wrapPtr(&v)
+		if _, isTA := x.Tuple.(*ssa.TypeAssert); isTA && x.Index == 0 && tv.Known != nil && isInterface(x.Type()) {
+			v.Known = tv.Known
+		}
 		f.vals[x] = v
 	case *ssa.Field:
 		sv := f.get(x.X)
